@@ -164,6 +164,8 @@ class Scn:
     loss_default: float = 1.0
     ops: list = field(default_factory=list)         # ("C", n) | ("K",) | ("R",) | ("SS", lineup) | ("SCH", lineup, "rr")
     loss_fn: str | None = None                      # name in LOSS_FNS (then the table for the model is derived from the run)
+    agent: str = "scripted"                         # "scripted" | "eps" (MABEpsilonGreedy)
+    agent_opts: tuple = (-1.0, 0.1, 0.0)
     bounds: tuple = ((0.0,), (100.0,))
     precision: tuple = (0.5,)
 
@@ -177,11 +179,13 @@ class ScriptedAgent:
         self.actions = list(actions)
         self.k = 0
         self.learned = []
+        self.chosen = []
         self.random_state = None
 
     def policy(self, state):
         a = self.actions[self.k] if self.k < len(self.actions) else 0
         self.k += 1
+        self.chosen.append(int(a))
         return np.int64(a)
 
     def learn(self, state, action, reward, next_state):
@@ -249,7 +253,7 @@ def dump(cal, scn: Scn) -> str:
     names = class_names()
     table = ";".join(f"{names.index(k)}:{v}" for k, v in cal.samplers_id_table.items())
     smp = ";".join(f"{cls_index(s)}:{s.batch_size}:{s._vp_obj}:{getattr(s, '_vp_calls', 0)}:"
-                   + ("-" if s.random_state is None else str(int(s.random_state))) for s in sch.samplers)
+                   + ("?" if getattr(s, "_vp_entropy", False) else "-" if s.random_state is None else str(int(s.random_state))) for s in sch.samplers)
     return (f"n={cal.n_sampled_params} b={cal.current_batch_index} params=[{ps}] losses=[{ls}] series=[{';'.join(ser)}] "
             f"bn=[{','.join(str(int(x)) for x in cal.batch_num_samp)}] ms=[{','.join(str(int(x)) for x in cal.method_samp)}] "
             f"sched={s_sched} gen={gen_position(cal, scn.seed)} table=[{table}] smp=[{smp}]")
@@ -296,22 +300,41 @@ def run_real(scn: Scn, model=None):
         return smp
 
     RLScheduler.get_next_sampler = get_wrapped
+    orig_seed = Calibrator._set_samplers_seeds
+
+    def seeds_wrapped(self):
+        orig_seed(self)
+        for s in self.scheduler.samplers:
+            s._vp_entropy = False
+
+    Calibrator._set_samplers_seeds = seeds_wrapped
     buf = io.StringIO()
     try:
         with recording() as rec, contextlib.redirect_stdout(buf):
             samplers = build_samplers(scn.lineup, next_obj)
+            for _s in samplers:
+                _s._vp_entropy = True      # a scheduler constructor reseeds its samplers from OS entropy
             info["lineups"].append(samplers)
             kw = {}
             agent = None
             if scn.sched == "rr":
                 kw["samplers"] = samplers
             else:
-                agent = ScriptedAgent(scn.actions)
+                if getattr(scn, "agent", "scripted") == "eps":
+                    from black_it.schedulers.rl.agents.epsilon_greedy import MABEpsilonGreedy
+                    agent = MABEpsilonGreedy(len(samplers), alpha=scn.agent_opts[0], eps=scn.agent_opts[1], initial_values=scn.agent_opts[2], random_state=1)
+                    agent.chosen = []
+                    _pol = agent.policy
+                    def _rec_policy(obs, _pol=_pol, agent=agent):
+                        a = _pol(obs); agent.chosen.append(int(a)); return a
+                    agent.policy = _rec_policy
+                else:
+                    agent = ScriptedAgent(scn.actions)
                 env = MABCalibrationEnv(len(samplers))
                 kw["scheduler"] = RLScheduler(samplers, agent, env)
                 for s in kw["scheduler"].samplers:
                     if not hasattr(s, "_vp_obj"):
-                        s._vp_obj = next_obj[0]; s._vp_calls = 0; next_obj[0] += 1
+                        s._vp_obj = next_obj[0]; s._vp_calls = 0; next_obj[0] += 1; s._vp_entropy = True
             cal = Calibrator(loss_function=StubLoss(), real_data=np.zeros((scn.simlen, 1)), model=model,
                              parameters_bounds=[list(scn.bounds[0]), list(scn.bounds[1])], parameters_precision=list(scn.precision),
                              ensemble_size=scn.ensemble, sim_length=scn.simlen, convergence_precision=scn.conv,
@@ -343,12 +366,15 @@ def run_real(scn: Scn, model=None):
                     lines.append("ok " + dump(cal, scn))
                 elif op[0] == "SCH":
                     ss = build_samplers(op[1], next_obj)
+                    for _s in ss:
+                        _s._vp_entropy = True
                     info["lineups"].append(ss)
                     cal.set_scheduler(RoundRobinScheduler(ss))
                     lines.append("ok " + dump(cal, scn))
             info.update(cal=cal, rec=rec, actions=consumed_actions, agent=agent, folder=folder, stdout=buf.getvalue())
     finally:
         RLScheduler.get_next_sampler = orig_get
+        Calibrator._set_samplers_seeds = orig_seed
         if folder and not scn.__dict__.get("keep_folder"):
             shutil.rmtree(folder, ignore_errors=True)
     return lines, info
@@ -364,23 +390,18 @@ def lean_request(scn: Scn, info) -> str:
     nobj = max([k for k in rec if isinstance(k, int)] + [-1]) + 1
     obj = [0]
 
-    def lineup_toks(lineup):
+    def lineup_toks(lineup, entropy=True):
         toks = [str(len(lineup))]
         for (ci, bs, script, cseed) in lineup:
-            toks.append(_smp_tok(class_names().index(ci) if isinstance(ci, str) else ci, bs, obj[0], 0, cseed)); obj[0] += 1
+            toks.append(_smp_tok(class_names().index(ci) if isinstance(ci, str) else ci, bs, obj[0], 0, -2 if entropy else cseed)); obj[0] += 1
         return " ".join(toks)
 
     lu = lineup_toks(scn.lineup)
     if scn.sched == "rl":
-        # bootstrap: last Halton of the line-up, or an appended HaltonSampler(batch_size=1)
-        sch_samplers = info["lineups"][0]
-        real = info["cal"].scheduler if scn.ops and not any(o[0] == "SCH" for o in scn.ops) else None
-        boot = real._halton_sampler_id if real is not None else len(scn.lineup)
-        if boot == len(scn.lineup):
-            n = len(scn.lineup) + 1
-            lu = str(n) + lu[len(str(len(scn.lineup))):] + " " + _smp_tok(class_names().index("HaltonSampler"), 1, obj[0], 0, None)
+        sched = "rl"
+        # the model appends its own Halton (object id = len(line-up)) when the supplied set has none
+        if not any(c == "HaltonSampler" for c, *_ in scn.lineup):
             obj[0] += 1
-        sched = f"rl {boot}"
     else:
         sched = "rr"
     ops = []
@@ -392,7 +413,7 @@ def lean_request(scn: Scn, info) -> str:
         elif op[0] == "R":
             ops.append("R")
         elif op[0] == "SS":
-            ops.append("SS " + lineup_toks(op[1]))
+            ops.append("SS " + lineup_toks(op[1], entropy=False))
         elif op[0] == "SCH":
             ops.append("SCH " + lineup_toks(op[1]) + " rr")
     nobj = max(nobj, obj[0])
